@@ -319,7 +319,7 @@ theorem readValue_enc (cfg : Cfg) (T : List Lbl) (hT : T.length < nullIdx) (hA :
     rw [readValue, value_head_ok cfg self (idxIn T self) 9 _ pos R F _ e2 (by omega) (by omega) (by omega)]
     simp only [unle_le1 9 (by decide)]
     rw [readDataU_ok cfg .bool 0 _ _ _ _ 1 rfl]
-    simp only [Res.bind, Prim.width, unle_le1 0 (by decide), ↓reduceIte]
+    simp only [guardKind, Res.bind, Prim.width, unle_le1 0 (by decide), ↓reduceIte]
     rw [readPtr_idx' cfg false (idxIn T h) tail _ _ F f2 (by simp; omega) (by simp; omega)]
     simp [Res.bind, setL, e4, Prim.width]
   | .constArray h rc es, fuel + 1, self, t, tail, pos, R, F, sup', hd, hp, hw, hR, hl => by
@@ -339,7 +339,7 @@ theorem readValue_enc (cfg : Cfg) (T : List Lbl) (hT : T.length < nullIdx) (hA :
     rw [readValue, value_head_ok cfg self (idxIn T self) 9 _ pos R F _ e2 (by omega) (by omega) (by omega)]
     simp only [unle_le1 9 (by decide)]
     rw [readDataU_ok cfg .bool 1 _ _ _ _ 1 rfl]
-    simp only [Res.bind, Prim.width, unle_le1 1 (by decide), Nat.one_ne_zero, ↓reduceIte, Supply.next]
+    simp only [guardKind, Res.bind, Prim.width, unle_le1 1 (by decide), Nat.one_ne_zero, ↓reduceIte, Supply.next]
     have e5 := readData_ok cfg (Prim.pos).tag (Prim.tag_lt _) (le (Prim.pos).width (idxIn T h))
     simp only [encPrim, List.append_assoc] at e5 ⊢
     rw [e5 _ (some (zeros 4)) _ _ F 4 (by simp [Prim.width])]
